@@ -452,3 +452,87 @@ M("C20", "unpack-manual-accumulation-loop-ignores-order", U, UNPACK_RET, UNPACK_
 BLK_SPLIT_ROT = XOR_GUARD + "    if len(data) > 1024:\n        r = 1024 % len(key)\n        return xor(data[:1024], key) + xor(data[1024:], key[r:] + key[:r])\n"
 T("C20", "twin-xor-head-tail-split-with-rotated-key", U, XOR_GUARD, BLK_SPLIT_ROT)
 M("C20", "xor-head-tail-split-rotated-by-wrong-offset", U, XOR_GUARD, BLK_SPLIT_ROT.replace("r = 1024 % len(key)", "r = 1000 % len(key)"), "C20.R1")
+
+# ============================================================================================================ wave 5
+# ---- R5: what find_staged_beacon() hands back on a path that a known request takes WITHOUT a positive stager test of its URI
+# must not be the result of an extraction made for another response: object / module state into which the function stores a
+# BeaconConfig.from_* result (or into which the caller stores what the function returned) may only be returned behind the
+# gate.  (seeded C20i: sha1(body) -> config LRU consulted before the gate; the entries below are other memoisations.)
+RET_CONFIG = "        return config\n"
+INIT_ANCHOR = "        self.extract_beacons = extract_beacons\n"
+MEMO_LOOKUP = "        digest = hashlib.sha1(response.body).digest()\n        if digest in self.scanned_payloads:\n            return self.scanned_payloads[digest]\n"
+MEMO_EDITS = [
+    (P, "import logging\n", "import hashlib\nimport logging\n"),
+    (P, INIT_ANCHOR, INIT_ANCHOR + "        self.scanned_payloads = LRUDict(maxsize=32)\n"),
+    (P, RET_CONFIG, "        self.scanned_payloads[digest] = config\n" + RET_CONFIG),
+]
+M("C20", "gate-bypassed-once-a-config-is-known", P, GATE, "        if self.bconfig is not None:\n            return self.bconfig\n" + GATE, "C20.R5")
+M("C20", "gate-bypassed-by-last-body-memo", P, "", "", "C20.R5", edits=[
+    (P, INIT_ANCHOR, INIT_ANCHOR + "        self.last_body = None\n        self.last_config = None\n"),
+    (P, GATE, "        if self.last_body is not None and response.body == self.last_body:\n            return self.last_config\n" + GATE),
+    (P, RET_CONFIG, "        self.last_body, self.last_config = response.body, config\n" + RET_CONFIG)])
+M("C20", "gate-bypassed-by-module-level-memo-get", P, "", "", "C20.R5", edits=[
+    (P, "class BeaconCapture:\n", "_SCANNED = {}\n\n\nclass BeaconCapture:\n"),
+    (P, GATE, "        cached = _SCANNED.get(response.body)\n        if cached is not None:\n            return cached\n" + GATE),
+    (P, RET_CONFIG, "        _SCANNED[response.body] = config\n" + RET_CONFIG)])
+M("C20", "gate-bypassed-by-memo-inside-known-request-branch", P, "", "", "C20.R5", edits=MEMO_EDITS + [
+    (P, "        if response.request:\n            is_stager = False\n", "        digest = hashlib.sha1(response.body).digest()\n        if response.request:\n            if digest in self.scanned_payloads:\n                return self.scanned_payloads[digest]\n            is_stager = False\n")])
+M("C20", "gate-bypassed-by-memo-through-local-alias", P, "", "", "C20.R5", edits=[
+    (P, "import logging\n", "import hashlib\nimport logging\n"),
+    (P, INIT_ANCHOR, INIT_ANCHOR + "        self.scanned_payloads = {}\n"),
+    (P, GATE, "        seen = self.scanned_payloads\n        digest = hashlib.sha1(response.body).digest()\n        hit = seen.get(digest)\n        if hit is not None:\n            return hit\n" + GATE),
+    (P, RET_CONFIG, "        seen[digest] = config\n" + RET_CONFIG)])
+T("C20", "twin-memo-consulted-behind-the-gate", P, "", "", edits=MEMO_EDITS + [(P, GATE, GATE + MEMO_LOOKUP)])
+T("C20", "twin-negative-cache-before-the-gate", P, "", "", edits=[
+    (P, INIT_ANCHOR, INIT_ANCHOR + "        self.not_beacons = set()\n"),
+    (P, GATE, "        if response.body in self.not_beacons:\n            return None\n" + GATE),
+    (P, "        except ValueError:\n            config = None\n", "        except ValueError:\n            config = None\n            self.not_beacons.add(response.body)\n")])
+T("C20", "twin-memo-keyed-by-uri-and-body-undecided", P, "", "", edits=[
+    (P, INIT_ANCHOR, INIT_ANCHOR + "        self.scanned = {}\n"),
+    (P, GATE, "        key = (response.request.uri if response.request else None, response.body)\n        if key in self.scanned:\n            return self.scanned[key]\n" + GATE),
+    (P, RET_CONFIG, "        self.scanned[key] = config\n" + RET_CONFIG)])
+T("C20", "twin-result-local-initialised-none", P, "", "", edits=[
+    (P, "        try:\n            config = BeaconConfig.from_bytes(response.body)\n", "        config = None\n        try:\n            config = BeaconConfig.from_bytes(response.body)\n"),
+    (P, "        except ValueError:\n            config = None\n", "        except ValueError:\n            pass\n")])
+
+# ---- R3: the x64 shape test has to constrain the WHOLE URI (L28).  These entries are written against the REPAIRED source
+# text (`re.fullmatch("/[A-Za-z0-9]{4}", uri)`, /repo fix F23); on a tree that still has `re.match("^/...$", uri)` they are stale.
+X64_CALL_FM = 're.fullmatch("/[A-Za-z0-9]{4}", uri)'
+X64_RET_FM = "    return bool(checksum8(uri) == 93 and " + X64_CALL_FM + ")\n"
+X64_DEF = "def is_stager_x64(uri: str) -> bool:\n"
+M("C20", "x64-whole-dollar-under-match", U, X64_CALL_FM, 're.match("^/[A-Za-z0-9]{4}$", uri)', "C20.R3")  # exact reversal of the repair
+M("C20", "x64-whole-dollar-multiline", U, X64_CALL_FM, 're.match("^/[A-Za-z0-9]{4}$", uri, re.M)', "C20.R3")
+M("C20", "x64-whole-search-unanchored", U, X64_CALL_FM, 're.search("/[A-Za-z0-9]{4}", uri)', "C20.R3")
+M("C20", "x64-whole-four-or-more", U, X64_CALL_FM, 're.fullmatch("/[A-Za-z0-9]{4,}", uri)', "C20.R3")
+M("C20", "x64-whole-search-dollar", U, X64_CALL_FM, 're.search("^/[A-Za-z0-9]{4}$", uri)', "C20.R3")
+M("C20", "x64-whole-match-no-end-anchor", U, X64_CALL_FM, 're.match("/[A-Za-z0-9]{4}", uri)', "C20.R3")
+M("C20", "x64-whole-search-end-anchor-only", U, X64_CALL_FM, 're.search(r"/[A-Za-z0-9]{4}\\Z", uri)', "C20.R3")
+M("C20", "x64-whole-precompiled-dollar-match", U, "", "", "C20.R3", edits=[
+    (U, X64_DEF, '_X64_URI = re.compile("/[A-Za-z0-9]{4}$")\n\n\n' + X64_DEF), (U, X64_CALL_FM, "_X64_URI.match(uri)")])
+M("C20", "x64-whole-group-dollar", U, X64_CALL_FM, 're.match("(/[A-Za-z0-9]{4})$", uri)', "C20.R3")
+T("C20", "twin-x64-whole-match-backslash-z", U, X64_CALL_FM, 're.match(r"/[A-Za-z0-9]{4}\\Z", uri)')
+T("C20", "twin-x64-whole-precompiled-fullmatch", U, "", "", edits=[
+    (U, X64_DEF, '_X64_URI = re.compile("/[0-9a-zA-Z]{4}")\n\n\n' + X64_DEF), (U, X64_RET_FM, "    return checksum8(uri) == 93 and _X64_URI.fullmatch(uri) is not None\n")])
+T("C20", "twin-x64-whole-search-absolute-anchors", U, X64_CALL_FM, 're.search(r"\\A/[a-zA-Z\\d]{4}\\Z", uri, re.ASCII)')
+T("C20", "twin-x64-whole-fullmatch-redundant-anchors", U, X64_CALL_FM, 're.fullmatch("^/[A-Za-z0-9]{4}$", uri)')
+T("C20", "twin-x64-whole-fullmatch-multiline-flag", U, X64_CALL_FM, 're.fullmatch("/[A-Za-z0-9]{4}", uri, re.MULTILINE)')
+T("C20", "twin-x64-whole-group-backslash-z", U, X64_CALL_FM, 're.match(r"(/[A-Za-z0-9]{4})\\Z", uri)')
+T("C20", "twin-x64-whole-lookahead-undecided", U, X64_CALL_FM, 're.match(r"/(?=[A-Za-z0-9]{4}\\Z)[A-Za-z0-9]{4}", uri)')
+T("C20", "twin-x64-whole-pattern-table-undecided", U, "", "", edits=[
+    (U, X64_DEF, '_URI_SHAPES = {"x64": re.compile("/[A-Za-z0-9]{4}")}\n\n\n' + X64_DEF), (U, X64_CALL_FM, '_URI_SHAPES["x64"].fullmatch(uri)')])
+T("C20", "twin-x64-whole-no-regex", U, X64_RET_FM, '    return checksum8(uri) == 93 and len(uri) == 5 and uri.startswith("/") and uri[1:].isascii() and uri[1:].isalnum()\n')
+# the older x64 entries (written against `re.match("^/[A-Za-z0-9]{4}$", uri)`), restated against the repaired text
+T("C20", "twin-x64-early-return-fm", U, X64_RET_FM, "    if checksum8(uri) != 93:\n        return False\n    return " + X64_CALL_FM + " is not None\n")
+T("C20", "twin-x64-split-class-fm", U, X64_CALL_FM, 're.fullmatch("/[A-Za-z0-9][0-9A-Za-z]{3}", uri)')
+T("C20", "twin-x64-ignorecase-ascii-fm", U, X64_CALL_FM, 're.fullmatch("/[a-z0-9]{4}", uri, re.IGNORECASE | re.ASCII)')
+T("C20", "twin-x64-alternation-merged-by-parser-fm", U, X64_CALL_FM, 're.fullmatch("/(?:[A-Za-z]|[0-9]){4}", uri)')
+T("C20", "twin-x64-nested-repeat-undecided-fm", U, X64_CALL_FM, 're.fullmatch("/(?:[A-Za-z0-9]{2}){2}", uri)')
+M("C20", "x64-or-fm", U, X64_RET_FM, "    return bool(checksum8(uri) == 93 or " + X64_CALL_FM + ")\n", "C20.R3")
+M("C20", "x64-underscore-fm", U, '[A-Za-z0-9]{4}"', '[A-Za-z0-9_]{4}"', "C20.R3")
+M("C20", "x64-ignorecase-unicode-fm", U, X64_CALL_FM, 're.fullmatch("/[a-z0-9]{4}", uri, re.IGNORECASE)', "C20.R3")
+M("C20", "x64-early-return-wrong-constant-fm", U, X64_RET_FM, "    if checksum8(uri) != 92:\n        return False\n    return " + X64_CALL_FM + " is not None\n", "C20.R3")
+M("C20", "x64-no-pattern-fm", U, X64_RET_FM, "    return checksum8(uri) == 93 and len(uri) == 5\n", "C20.R3")
+M("C20", "x64-five-chars-fm", U, '[A-Za-z0-9]{4}"', '[A-Za-z0-9]{4,5}"', "C20.R3")
+M("C20", "x64-no-regex-unicode-alnum-fm", U, X64_RET_FM, '    return checksum8(uri) == 93 and len(uri) == 5 and uri.startswith("/") and uri[1:].isalnum()\n', "C20.R3")
+M("C20", "x64-digit-class-unicode-fm", U, '[A-Za-z0-9]{4}"', '[A-Za-z\\\\d]{4}"', "C20.R3")
+M("C20", "x64-dot-position-fm", U, '[A-Za-z0-9]{4}"', '[A-Za-z0-9]{3}."', "C20.R3")
